@@ -92,15 +92,32 @@ def fullChoose (state input _raw ctx : Json) : Option Str :=
 def fullTmpl (input ctx t : Json) : Except PErr Json :=
   (evalTemplate (Templates.oracles []) Quirks.none input ctx t).map normalise
 
+/-- `run` with the full Template / Choice models; `maxData` is the size limit of the engine run
+(`MAX_DATA_LENGTH`), by default the model's own default (262144) -/
+def runFull (asl input ctx oracle fuel : String) (maxData : Option Nat) : String :=
+  match rd asl, rd input, rd ctx, rd oracle, fuel.toNat? with
+  | some a, some i, some c, some o, some f =>
+    if !fullSupported 200 a then "unsupported"
+    else
+      let env0 : Env := { tmpl := fullTmpl, choose := fullChoose, task := oracleFn o }
+      let env : Env := match maxData with
+        | some l => { env0 with maxData := l }
+        | none => env0
+      "ok\t" ++ js (outcomeJson (run env f a i c))
+  | _, _, _, _, _ => "unsupported"
+
 def handle : List String → String
-  | ["run", asl, input, ctx, oracle, fuel] =>
-    match rd asl, rd input, rd ctx, rd oracle, fuel.toNat? with
-    | some a, some i, some c, some o, some f =>
-      if !fullSupported 200 a then "unsupported"
-      else
-        let env : Env := { tmpl := fullTmpl, choose := fullChoose, task := oracleFn o }
-        "ok\t" ++ js (outcomeJson (run env f a i c))
-    | _, _, _, _, _ => "unsupported"
+  | ["run", asl, input, ctx, oracle, fuel] => runFull asl input ctx oracle fuel none
+  -- small-limit mode: a seventh field, the size limit in characters
+  | ["run", asl, input, ctx, oracle, fuel, maxData] =>
+    match maxData.toNat? with
+    | some l => runFull asl input ctx oracle fuel (some l)
+    | none => "unsupported"
+  -- the length the size checks measure: `(render j).length`, to be compared with Python's `len(json.dumps(j))`
+  | ["renderlen", j] =>
+    match rd j with
+    | some v => "ok\t" ++ toString (render v).length
+    | none => "unsupported"
   | ["runlite", asl, input, ctx, oracle, fuel] =>
     match rd asl, rd input, rd ctx, rd oracle, fuel.toNat? with
     | some a, some i, some c, some o, some f =>
